@@ -126,7 +126,7 @@ fn explore(ctx: &Ctx) -> Outcome {
         .reduce(Tally::new, Tally::merge);
     let mut layers = vec![json!({"family": "ordered maps of 0..=3 files", "cases": cases.len(), "layouts_per_case": ref_pack::pack_layouts().len(), "completed": true})];
     // large archives: many files
-    for n in if ctx.tier == Tier::Thorough { vec![255usize, 256, 4096, 65535] } else { vec![255, 256, 4096] } {
+    for n in if ctx.tier == Tier::Thorough { vec![255usize, 256, 4096, 4097, 5000, 65535] } else { vec![255, 256, 4096, 4097, 5000] } {
         let files: Vec<(String, Vec<u8>)> = (0..n).map(|i| (format!("f{:05}", i), body(i % 4, i % 3))).collect();
         total.cases += 1;
         total.nontrivial += 1;
@@ -146,7 +146,7 @@ fn explore(ctx: &Ctx) -> Outcome {
     }
     total.sample(json!({"case": cases[cases.len() / 2]}));
     let mut o = total.into_outcome(
-        "ALL ordered maps of 0..=3 files with distinct names from {\"\", a, FE9ArcTest1.bin, 日本} and lengths from {0,1,31,32,33,63,64,65} (position-dependent contents), plus archives of 255/256/4096 (65 535 thorough) files; oracles: parse(serialize(m)) == m in order, strict reference reader of the image (count, names, offsets, sizes, 32-byte alignment), and parse of all 16 conforming re-arrangements written by the reference builder (names before/after bodies, either order, gaps); non-trivial = non-empty map",
+        "ALL ordered maps of 0..=3 files with distinct names from {\"\", a, FE9ArcTest1.bin, 日本} and lengths from {0,1,31,32,33,63,64,65} (position-dependent contents), plus archives of 255/256/4096/4097/5000 (65 535 thorough) files; oracles: parse(serialize(m)) == m in order, strict reference reader of the image (count, names, offsets, sizes, 32-byte alignment), and parse of all 16 conforming re-arrangements written by the reference builder (names before/after bodies, either order, gaps); non-trivial = non-empty map",
         true,
         vec![("layers", json!(layers))],
     );
